@@ -257,6 +257,12 @@ int worker_main(std::string const& prop, int tier, u64 seed, u64 start, u64 stri
         }
 
         Plan const p = plan_for(*ps, tier, seed, idx);
+        if (san && p.total_calls() > (1ULL << 22))
+        {
+            // volume runs (2^24 .. 2^32 calls) are for the fast flavour: under ASan + UBSan they would
+            // take the whole batch (and end in the watchdog)
+            continue;
+        }
         spit(inflight, p.to_text());
         alarm(900);   // watchdog: a run that does not come back is a result (SIGALRM ends the worker)
         std::fprintf(out, "B %llu\n", (unsigned long long) idx);
@@ -412,7 +418,7 @@ ChildOut exec_forked(Plan const& p, std::string const& prop, std::string const& 
         dup2(devnull, 1);
         dup2(devnull, 2);
         u64 out[3] = {0, 0, 1};
-        alarm(120);
+        alarm(p.total_calls() > (1ULL << 22) ? 3600 : 120);
         for (int i = 0; i != repeat; ++i)
         {
             Report rep;
@@ -468,6 +474,9 @@ bool fails_same(std::string const& self, Plan const& p, std::string const& prop,
 Plan minimise(std::string const& self, Plan p, std::string const& prop, std::string const& tag, bool crash_class,
     std::string const& scratch, int& attempts)
 {
+    // a volume run takes seconds to minutes per execution: reported as it is
+    if (p.total_calls() > (1ULL << 22)) return p;
+
     double const t0 = now();
     bool progress = true;
     attempts = 0;
@@ -1316,7 +1325,7 @@ int replay_main(std::string const& file, std::string const& expect)
         std::fprintf(stderr, "cannot read plan %s: %s\n", file.c_str(), err.c_str());
         return 3;
     }
-    alarm(600);
+    alarm(p.total_calls() > (1ULL << 22) ? 3600 : 600);
     Report rep;
     execute(p, rep);
     std::printf("replay %s: scenario=%s hash=%llx findings=%zu\n", file.c_str(), p.scn.c_str(),
